@@ -861,8 +861,9 @@ def _table_case(c: dict, inproc: bool) -> dict:
                     try:
                         obs["own_ok"] = svc.echo(x=7002) == 7002 and [b.batch.column("v")[0].as_py() for b in svc.count(tag=9, n=2, logs=0)] == [9000, 9001]
                         obs["reused"] = tr.proc.pid == pid1
-                    except Exception:  # noqa: BLE001
+                    except Exception as e:  # noqa: BLE001
                         obs["own_ok"] = False
+                        obs["err"] += f"|own:{type(e).__name__}:{str(e)[:80]}"
                 else:
                     obs["reused"] = tr.proc.pid == pid1
         except Exception as e:  # noqa: BLE001
